@@ -193,6 +193,11 @@ func runC06(w *vx.W) {
 		if !w.Mine(k) {
 			return
 		}
+		if k%4 == 0 {
+			// the File's own output fields hold stale values, as after a Decode or an earlier Encode of another size
+			g.Stale = true
+			g.Desc += ", stale Header.CRC/DataSize/CRC"
+		}
 		out, msg, class := c06Check(g)
 		if class == "skip" {
 			return
